@@ -307,7 +307,7 @@ class _rewrite_captured_vars(ast.NodeTransformer):
         value = self.visit(node.value)
 
         # Now, if it comes back a constant, can we do a lookup to resolve it?
-        if hasattr(value, "value") and hasattr(value.value, node.attr):
+        if isinstance(value, ast.Constant) and hasattr(value.value, node.attr):
             new_value = getattr(value.value, node.attr)
             # When 3.10 is not supported, replace with EnumType
             if isinstance(value.value, Enum.__class__):
